@@ -200,6 +200,12 @@ def run_case(case, rep, record=True):
             check_mask(h, rep, f"after {act}")
             if h.diverged:
                 break
+        # the mask must not depend on which environment was created last
+        other = "small" if len(spec.addrs) != 8 else "tiny"
+        import nasim
+        foreign = sources.make_env(nasim.load_scenario(sources.shipped_path(other)))
+        check_mask(h, rep, f"after another environment ({other}) was created")
+        del foreign
         if record and len(rep.samples) < rep.max_samples:
             rep.sample(dict(source=case["source"]["kind"], flat_n=int(h.env.action_space.n),
                             exploits=spec.exploits, privescs=list(spec.privescs), subnets=spec.subnets,
